@@ -992,6 +992,21 @@ def meetup_candidates(F, sigma):
                             continue
                         if _atoms(v) <= PURE:                   # a price chosen once, e.g. (endb == len_b) ? tgpe : gpe
                             ev.consts[kid.decl["did"]] = v
+            elif st.k == "BinaryOperator" and st.d["op"] == "=" and st.kids[0].strip().k == "DeclRefExpr" and st.kids[0].strip().ty in FLOATS \
+                    and any(x.k == "CallExpr" and x.callee in ("fabsf", "fabs") for x in st.kids[1].walk()):
+                # the tie-break term: distance of the column from the middle of the rectangle
+                d_ = st.kids[0].strip()
+                ev.loc[d_.d["did"]] = atom("dist")
+                ev.names[d_.d["did"]] = d_.d["name"]
+            elif st.k == "CompoundAssignOperator" and st.d["op"] in ("/=", "*=") and st.kids[0].strip().k == "DeclRefExpr" \
+                    and st.kids[0].strip().d["did"] in ev.loc and st.kids[1].strip(casts=True).k in ("FloatingLiteral", "IntegerLiteral"):
+                d_ = st.kids[0].strip()
+                cur = ev.loc[d_.d["did"]]
+                if len(cur) == 1 and len(next(iter(cur))) == 1:
+                    (nm, co), = next(iter(cur))
+                    ev.loc[d_.d["did"]] = atom("%s%s%g" % (nm, st.d["op"][0], float(st.kids[1].strip(casts=True).d["v"])), co)
+                else:
+                    raise Unsupported("scaling of %s" % d_.text())
             elif st.k in ("ForStmt", "WhileStmt", "DoStmt"):
                 init = st.child("init")
                 if init is not None and init.k == "BinaryOperator" and init.d["op"] == "=" and init.kids[0].strip().k == "DeclRefExpr":
@@ -1065,6 +1080,25 @@ def r07f(ck, prog):
                                  "a different price than the passes computed" % (name, piece, code, label, " / ".join(show(v) for v in vs[name]),
                                                                                 " / ".join(show(v) for v in ref)), prog.config)
     ck.floor("R07f", n, 30, "meetup candidates")
+    # the tie-break term is the same quantity in the scan and at the last column (distance from the middle, scaled alike)
+    for name in MEETUPS:
+        ties = {}
+        for (nm, vals), cands in allt.items():
+            if nm != name:
+                continue
+            for p_, c_, v, _, st in cands:
+                for a_ in _atoms(v):
+                    if a_.startswith("dist") or a_.startswith("sub"):
+                        ties.setdefault(p_, {}).setdefault(a_, st)
+        kinds_ = {p_: sorted(d_) for p_, d_ in ties.items()}
+        ck.inst("R07f", site(prog, prog.fn(name), "tie-break"), "%s: tie-break term per piece: %s" % (name, kinds_), prog.config)
+        if len({tuple(v) for v in kinds_.values()}) > 1:
+            odd = min(ties.items(), key=lambda kv: sum(1 for x in kinds_.values() if x == sorted(kv[1])))
+            st = next(iter(odd[1].values()))
+            ck.violation("R07f", "R07f/%s/tie-term" % name, site(prog, st, "tie-break"),
+                         "%s subtracts %s in its %s piece but %s elsewhere: the tie-break term, meant to be a thousandth of the distance from "
+                         "the middle, is in raw score units there and overrides real score differences" % (
+                             name, sorted(odd[1]), odd[0], [v for k_, v in kinds_.items() if k_ != odd[0]][:1]), prog.config)
     # R07h: a terminal price belongs to a terminal column.  Away from the first column of the scan (first = False) a candidate
     # of the loop must not depend on whether the rectangle starts at the left end of the sequence: the passes price an
     # interior column the same in every border situation (their interior piece contains no border test)
